@@ -39,6 +39,12 @@ func c18Kinds(aux string) map[string]kindSpec {
 		"litupd":     {`.e[] | 5 | . += 1`, "e: []\n---\ne: []\n---\ne: [1]\n", "yaml"},
 		"commentdoc": {`.`, "# just a comment\n", "yaml"},
 		"csv":        {`.[0].b`, "a,b\n1,x\n", "csv"},
+		// the same expression text (one parsed tree) on different documents: nothing computed from the first document may stay in the tree
+		"regexa":  {`.p as $p | [.items[] | select(test("^\($p)"))]`, "p: a\nitems: [apple, banana]\n", "yaml"},
+		"regexb":  {`.p as $p | [.items[] | select(test("^\($p)"))]`, "p: b\nitems: [apple, banana]\n", "yaml"},
+		"interpb": {`"x\(.a)y\(.b)"`, "a: 9\nb: nine\n", "yaml"},
+		"subb":    {`.s | sub("\(.from)", "\(.to)")`, "s: hello\nfrom: l\nto: L\n", "yaml"},
+		"suba":    {`.s | sub("\(.from)", "\(.to)")`, "s: hello\nfrom: h\nto: J\n", "yaml"},
 	}
 }
 
@@ -62,13 +68,13 @@ func evalKind(k string, ks kindSpec, so *sharedObjs) (out string, err error) {
 		}
 	}()
 	yqlib.InitExpressionParser()
-	node := so.trees[k]
+	node := so.trees[ks.Expr] // parsed trees are shared by expression text
 	if node == nil {
 		node, err = yqlib.ExpressionParser.ParseExpression(ks.Expr)
 		if err != nil {
 			return "", err
 		}
-		so.trees[k] = node
+		so.trees[ks.Expr] = node
 	}
 	dec := so.decoders[ks.Format]
 	if dec == nil {
